@@ -725,7 +725,8 @@ def open_stream(fp: BinaryIO, mode: str) -> BinaryIO:
         fp = lz4.open(fp, mode=mode)
     elif HAS_ZSTD and peek_data[:4] == ZSTD_MAGIC:
         dctx = zstd.ZstdDecompressor()
-        fp = dctx.stream_reader(fp)
+        # The zstd stream reader is no io.IOBase, unlike the other decompressors: wrap it so every caller gets a real file object
+        fp = io.BufferedReader(dctx.stream_reader(fp))
 
     return fp
 
